@@ -106,12 +106,17 @@ Definition cert_names (p : provider) : list string :=
 
 Definition key (lk : bool) (s : string) : string := if lk then lower s else s.
 
-(* buildMatch: the ONE mixed set *)
+(* buildMatch: the ONE mixed set (`mixed` = true, the code in the tree: Gen/TLSTokens.v tls_one_mixed_set);
+   with `mixed` = false names and protocols would be kept in two sets (the shape of the repair of the listed finding) *)
 Definition match_set (lk : bool) (white : list string) (p : provider) : list string :=
   map (key lk) (cert_names p ++ next_protos white p ++ [p_sname p]).
+Definition name_set (lk : bool) (p : provider) : list string := map (key lk) (cert_names p ++ [p_sname p]).
+Definition alpn_set (lk : bool) (white : list string) (p : provider) : list string := map (key lk) (next_protos white p).
 
-Definition code_name_match lk white p sni := matched_server_name (match_set lk white p) sni.
-Definition code_alpn_match lk white p protos := matched_alpn (match_set lk white p) protos.
+Definition code_name_match (lk mixed : bool) white p sni :=
+  matched_server_name (if mixed then match_set lk white p else name_set lk p) sni.
+Definition code_alpn_match (lk mixed : bool) white p protos :=
+  matched_alpn (if mixed then match_set lk white p else alpn_set lk white p) protos.
 
 (* GetConfigForClient, written as the code: one pass, two remembered candidates.
    Result: index of the chosen provider; None = ErrorNoCertConfigure. *)
@@ -132,8 +137,8 @@ Fixpoint select_go (nm am : provider -> bool) (ps : list provider) (i : nat)
           select_go nm am ps' (S i) dflt' fa'
   end.
 
-Definition select (lk : bool) (white : list string) (ps : list provider) (sni : string) (protos : list string) : option nat :=
-  select_go (fun p => code_name_match lk white p sni) (fun p => code_alpn_match lk white p protos) ps 0 None None.
+Definition select (lk mixed : bool) (white : list string) (ps : list provider) (sni : string) (protos : list string) : option nat :=
+  select_go (fun p => code_name_match lk mixed white p sni) (fun p => code_alpn_match lk mixed white p protos) ps 0 None None.
 
 (* ---------- the documented precedence ---------- *)
 Fixpoint find_index {A} (f : A -> bool) (l : list A) (i : nat) : option nat :=
@@ -232,9 +237,9 @@ Definition str_list_eqb (a b : list string) : bool :=
 
 (* providers, sni, client protos, index the real GetConfigForClient chose, ClientAuth and NextProtos of the returned config *)
 Definition sel_case := (list provider * string * list string * option nat * N * list string)%type.
-Definition sel_case_ok lk white (k : sel_case) : bool :=
+Definition sel_case_ok lk mixed white (k : sel_case) : bool :=
   match k with (ps, sni, protos, got, gauth, gprotos) =>
-    andb (opt_nat_eqb (select lk white ps sni protos) got)
+    andb (opt_nat_eqb (select lk mixed white ps sni protos) got)
          (match got with
           | None => true
           | Some i => match nth_error ps i with
@@ -243,14 +248,14 @@ Definition sel_case_ok lk white (k : sel_case) : bool :=
                       end
           end)
   end.
-Definition sel_mismatches lk white (l : list sel_case) : list nat := mismatches_from (sel_case_ok lk white) 0 l.
+Definition sel_mismatches lk mixed white (l : list sel_case) : list nat := mismatches_from (sel_case_ok lk mixed white) 0 l.
 
 (* one provider, a string, the real MatchedServerName answer, a proto list, the real MatchedALPN answer *)
 Definition match_case := (provider * string * bool * list string * bool)%type.
-Definition match_case_ok lk white (k : match_case) : bool :=
+Definition match_case_ok lk mixed white (k : match_case) : bool :=
   match k with (p, sni, gn, protos, ga) =>
-    andb (Bool.eqb (code_name_match lk white p sni) gn) (Bool.eqb (code_alpn_match lk white p protos) ga) end.
-Definition match_mismatches lk white (l : list match_case) : list nat := mismatches_from (match_case_ok lk white) 0 l.
+    andb (Bool.eqb (code_name_match lk mixed white p sni) gn) (Bool.eqb (code_alpn_match lk mixed white p protos) ga) end.
+Definition match_mismatches lk mixed white (l : list match_case) : list nat := mismatches_from (match_case_ok lk mixed white) 0 l.
 
 (* server handshake: require, verify, relation, accepted by the real server *)
 Definition auth_case := (bool * bool * peer_rel * bool)%type.
